@@ -430,7 +430,8 @@ class DHEat:
                 del timedout_sockets[0]
 
             # Open new sockets until we've hit the number of concurrent sockets, or if we exceeded the number of maximum connections.
-            while (len(socket_dict) < concurrent_sockets) and (len(socket_dict) + num_opened_connections < max_connections):
+            # Note: the number of attempted connections is bounded as well.  Otherwise, a target that refuses, resets or silently closes new connections would be flooded for the entire test period (or, when connect_ex() fails immediately, this loop would never end).
+            while (len(socket_dict) < concurrent_sockets) and (len(socket_dict) + num_opened_connections < max_connections) and (num_attempted_connections < max_connections):
                 s = socket.socket(target_address_family, socket.SOCK_STREAM)
                 s.setblocking(False)
 
@@ -441,6 +442,11 @@ class DHEat:
                     socket_dict[s] = now
                 else:
                     out.d("connect_ex() returned: %s (%d)" % (os.strerror(ret), ret), write_now=True)
+                    s.close()
+
+            # If the connection budget is spent and no sockets are in flight anymore, there is nothing left to wait for.
+            if (len(socket_dict) == 0) and (num_attempted_connections >= max_connections):
+                break
 
             # out.d("Calling select() on %u sockets..." % len(socket_dict), write_now=True)
             socket_list: List[socket.socket] = [*socket_dict]  # Get a list of sockets from the dictionary.
